@@ -11,9 +11,13 @@ PROP = dict(
                        "Comdex.C20.store_coverage_full", "Comdex.C20.import_faithful_full", "Comdex.C20.import_total_full", "Comdex.C20.import_accepts_full", "Comdex.C20.validate_keys_match_store_keys", "Comdex.C20.validate_keys_pinned", "Comdex.C20.derived_sourced_full",
                        "Comdex.C20.counters_exact_full", "Comdex.C20.fields_used_full",
                        "Comdex.C20.export_helpers_copy_ids_faithfully", "Comdex.C20.export_helpers_copy_fields_by_name", "Comdex.C20.copies_pinned",
+                       "Comdex.C20.migrate_fresh_id", "Comdex.C20.migrate_shared_counterexample", "Comdex.C20.migrate_shared_id_partial",
                        "Comdex.C20.knownGaps_are_gaps", "Comdex.C20.suspectedGaps_are_gaps", "Comdex.C20.allowList_are_gaps",
                        "Comdex.C20.benign_counters", "Comdex.C20.counter_counterexample", "Comdex.C20.store_counterexample"],
-    harness_tests=["TestC20"],
+    harness_tests=["TestC20", "TestC20Migrations"],
+    monitors=["store_roundtrip:<module>.<prefix>", "counter_roundtrip:<module>.<counter>.<rule>", "continuation_equal:<op>",
+              "continuation_equal:balances", "custody_roundtrip", "import_accepts_export:<module>",
+              "migration_keeps:<module>.<prefix>", "migration_continuation:<op>", "migration_runs:<migrator>"],
     trusted_base=[KERNEL_TB, HARNESS_TB,
                   "extract/genesis (go/ast only, ~1500 lines): attributes every store access of x/<m>/keeper to a prefix of "
                   "x/<m>/types/keys.go, follows calls from ExportGenesis / InitGenesis, classifies how InitGenesis restores each id "
